@@ -45,6 +45,24 @@ def _adts_in(ty):
     return out
 
 
+def _delegates_to_from(v, va, from_path):
+    """visit_str(self, v) = Ok(T::from(v)): the keep-the-fitting-prefix behaviour is that of From<&str> (X-cap, checked with it)"""
+    calls = [(b, t) for b, t in v.calls()]
+    if len(calls) != 1 or callee_of(calls[0][1]) != from_path or v.loops():
+        return False
+    a = va.call_args(calls[0][0])
+    x = a[0]
+    while x.op in ("ref", "mem", "memval"):
+        x = x.args[0]
+    if not (x.op == "arg" and x.args[1] == 2):
+        return False
+    rets = v.return_blocks()
+    if len(rets) != 1:
+        return False
+    rv = va.end_val(0, rets[0])
+    return rv.op == "agg" and rv.args[2] == "Ok" and rv.args[3] and rv.args[3][0] is va.call_term(calls[0][0])
+
+
 def rule_graph(prog, res, repo):
     graph, ext = type_graph(prog)
     res.floor("Z-graph", "crate types reachable from Message", len(graph), 250)
@@ -168,6 +186,8 @@ def rule_handwritten(prog, res):
             # take(N) with N the const generic (appears as an opaque const)
             okt = n.op in ("opaque_const", "const") and ("N" in str(n.args) or n.op == "const")
         ok = okt and any(c and c.endswith("Df88591String::<N>::push_char") for c in calls) and any(c == "core::str::<impl str>::chars" for c in calls)
+        if not ok:
+            ok = _delegates_to_from(v, va, "<util::Df88591String<N> as core::convert::From<&str>>::from")
         res.ob("Z-vis", "Df88591String visitor | reads chars().take(N) and pushes each (N characters always fit N bytes of Latin-1)", ok, str(takes), v.loc,
                sample=[show(a, va.names) for b, a in takes])
     v = next((g for p, g in prog.fns.items() if "ArrayStringVisitor" in p and p.endswith("::visit_str")), None)
@@ -178,6 +198,8 @@ def rule_handwritten(prog, res):
         calls = [callee_of(t) for b, t in v.calls()]
         ok = any(c and c.endswith("ArrayString::<N>::try_push") for c in calls) and any(c == "core::str::<impl str>::chars" for c in calls) \
             and any(c == "core::result::Result::<T, E>::is_err" for c in calls) and len(v.loops()) == 1
+        if not ok:
+            ok = _delegates_to_from(v, FA(v, prog), "<util::array_string::ArrayString<N> as core::convert::From<&str>>::from")
         res.ob("Z-vis", "ArrayString visitor | pushes chars() until one does not fit (the longest fitting prefix; everything for a serialised value)", ok, str(calls), v.loc)
     # both deserialize fns go through deserialize_str with their visitor
     for name, vis in (("util::Df88591String<N>", "Str88591Visitor"), ("util::array_string::ArrayString<N>", "ArrayStringVisitor")):
